@@ -383,6 +383,101 @@ impl Ctx<'_> {
     }
 
 
+    /// wide values: arrays, strings, tuples and structs of sizes around the thresholds implementations like to
+    /// special-case, equal content built two ways (literal / run-time loop, fields in two orders) and contents that differ
+    /// in exactly one place - the first, the middle or the last element, one more or one fewer element
+    fn wide(&mut self, cfg: &Cfg) {
+        let mut idx = 0u64;
+        for n in [8usize, 15, 16, 17, 31, 32, 33, 63, 64, 65, 127, 128, 129, 255, 256, 257, 1000] {
+            let ints = |chg: Option<usize>, len: usize| format!("[{}]", (0..len).map(|k| if chg == Some(k) { "-1".to_string() } else { k.to_string() }).collect::<Vec<_>>().join(", "));
+            let built = |chg: Option<usize>, len: usize| format!("mk({len}, {})", chg.map(|c| c as i64).unwrap_or(-5));
+            let mk = "mk := (n: int, chg: int) -> [int] { c := mut [int] []; i := mut 0; while *i < n { v := if *i == chg { -1 } else { *i }; c += [v]; i += 1; } return *c }; ";
+            let chars = |chg: Option<usize>, len: usize, wide: bool| -> String {
+                (0..len).map(|k| if chg == Some(k) { if wide { 'ü' } else { 'Z' } } else if wide && k % 5 == 0 { 'é' } else { (b'a' + (k % 26) as u8) as char }).collect()
+            };
+            let smk = "smk := (n: int, chg: int, w: bool) -> string { c := mut \"\"; i := mut 0; abc := \"abcdefghijklmnopqrstuvwxyz\"; while *i < n { ch := if *i == chg { if w { \"ü\" } else { \"Z\" } } else { if w && *i % 5 == 0 { \"é\" } else { abc[*i % 26] } }; c += ch; i += 1; } return *c }; ";
+            let mut cases: Vec<(String, String, bool)> = vec![];
+            let places = [Some(0), Some(n / 2), Some(n - 2), Some(n - 1)];
+            // arrays
+            cases.push(("array:equal:literal-vs-built".into(), format!("{mk}{} == {}", ints(None, n), built(None, n)), true));
+            cases.push(("array:equal:built-vs-built".into(), format!("{mk}a := {}; b := {}; m := match a {{ b => true, => false, }}; (a == b, a != b, m, [a] == [b], (a, 1) == (b, 1))", built(None, n), built(None, n)), true));
+            cases.push(("array:equal:concat-vs-built".into(), format!("{mk}({} + {}[{}:]) == {}", built(None, n / 2), built(None, n), n / 2, built(None, n)), true));
+            for pl in places {
+                cases.push((format!("array:one-differs:{}", if pl == Some(0) { "first" } else if pl == Some(n - 1) { "last" } else { "inner" }), format!("{mk}{} == {}", built(None, n), built(pl, n)), false));
+                cases.push(("array:one-differs:literal".into(), format!("{mk}{} == {}", ints(pl, n), built(None, n)), false));
+                cases.push(("array:one-differs:match".into(), format!("{mk}a := {}; b := {}; match a {{ b => true, => false, }}", built(pl, n), built(None, n)), false));
+            }
+            cases.push(("array:prefix".into(), format!("{mk}{} == {}", built(None, n), built(None, n + 1)), false));
+            cases.push(("array:prefix".into(), format!("{mk}{} == {}", built(None, n), built(None, n - 1)), false));
+            cases.push(("array:prefix:literal".into(), format!("{mk}{} == {}", ints(None, n - 1), built(None, n)), false));
+            // strings, ASCII and with multi-byte characters
+            for w in [false, true] {
+                let lit = |chg: Option<usize>, len: usize| format!("\"{}\"", chars(chg, len, w));
+                let blt = |chg: Option<usize>, len: usize| format!("smk({len}, {}, {w})", chg.map(|c| c as i64).unwrap_or(-5));
+                let tag = if w { "wide" } else { "ascii" };
+                cases.push((format!("string:{tag}:equal"), format!("{smk}a := {}; b := {}; m := match a {{ b => true, => false, }}; (a == b, a != b, {} == b, m)", blt(None, n), blt(None, n), lit(None, n)), true));
+                for pl in places {
+                    cases.push((format!("string:{tag}:one-differs"), format!("{smk}a := {}; b := {}; (a == b, {} == b, {} == a)", blt(pl, n), blt(None, n), lit(pl, n), lit(None, n)), false));
+                }
+                cases.push((format!("string:{tag}:prefix"), format!("{smk}({} == {}, {} == {})", blt(None, n), blt(None, n + 1), lit(None, n - 1), blt(None, n)), false));
+            }
+            if n <= 257 {
+                // tuples and structs written out; struct fields in two orders
+                let tup = |chg: Option<usize>, len: usize, hide: bool| format!("({})", (0..len).map(|k| { let v = if chg == Some(k) { "-1".to_string() } else { k.to_string() }; if hide { format!("hi({v})") } else { v } }).collect::<Vec<_>>().join(", "));
+                cases.push(("tuple:equal".into(), format!("{} == {}", tup(None, n, true), tup(None, n, false)), true));
+                for pl in places {
+                    cases.push(("tuple:one-differs".into(), format!("{} == {}", tup(pl, n, true), tup(None, n, false)), false));
+                }
+                cases.push(("tuple:longer".into(), format!("{} == {}", tup(None, n, true), tup(None, n + 1, false)), false));
+                let st = |chg: Option<usize>, len: usize, rev: bool, rename: Option<usize>| {
+                    let mut f: Vec<String> = (0..len).map(|k| format!("{}{k} := hi({})", if rename == Some(k) { "g" } else { "f" }, if chg == Some(k) { -1 } else { k as i64 })).collect();
+                    if rev {
+                        f.reverse();
+                    }
+                    format!("struct{{{}}}", f.join(", "))
+                };
+                cases.push(("struct:equal:reordered".into(), format!("a := {}; b := {}; m := match a {{ b => true, => false, }}; (a == b, a != b, m)", st(None, n, false, None), st(None, n, true, None)), true));
+                for pl in places {
+                    cases.push(("struct:one-value-differs".into(), format!("{} == {}", st(pl, n, false, None), st(None, n, true, None)), false));
+                    cases.push(("struct:one-name-differs".into(), format!("{} == {}", st(None, n, false, pl), st(None, n, true, None)), false));
+                }
+                cases.push(("struct:one-more-field".into(), format!("{} == {}", st(None, n, false, None), st(None, n + 1, true, None)), false));
+            }
+            for (label, src, equal) in cases {
+                idx += 1;
+                if !cfg.owns(idx) {
+                    continue;
+                }
+                self.rep.evaluations += 1;
+                self.rep.count("wide-value-cases");
+                self.rep.shape("wide_values", &format!("{label}:{}", if n <= 17 { "8-17" } else if n <= 65 { "31-65" } else if n <= 257 { "127-257" } else { "1000" }));
+                let out = real::parse_exec(&format!("{PRELUDE}{src}"), true);
+                // components are (==, !=, match, ...) in that order: `!=` is the second component where there is one
+                let flat: Option<Vec<bool>> = match &out {
+                    Outcome::Value(Variable::Bool(b)) => Some(vec![*b]),
+                    Outcome::Value(Variable::Tuple(t)) => t.iter().map(|v| v.as_bool().copied()).collect(),
+                    _ => None,
+                };
+                let has_ne = src.contains("a != b");
+                match flat {
+                    Some(bs) => {
+                        for (k, b) in bs.iter().enumerate() {
+                            let want = if has_ne && k == 1 { !equal } else { equal };
+                            if *b != want {
+                                self.rep.violation(&format!("c19:wide:{label}"), &format!("size {n}, component {k}: `{}` gave {b}, expected {want}", truncate(&src, 260)), "c19", &src);
+                                break;
+                            }
+                        }
+                    }
+                    None => match &out {
+                        Outcome::Panic(p) if p.kind != PanicKind::Panic => self.rep.inconclusive("wide:resource-or-fuel"),
+                        other => self.rep.violation(&format!("c19:wide:{label}:{}", other.tag()), &format!("size {n}: `{}`: {}", truncate(&src, 260), other.tag()), "c19", &src),
+                    },
+                }
+            }
+        }
+    }
+
     /// every ordered pair of a pool of scalars (signed zeros, NaN, infinities, look-alikes of different kinds) through
     /// `==`, `!=` and value arms - constant and run-time operands, and a `match` whose leading arms are all scalar
     /// constants (an implementation may look such arms up in a table: the lookup must still be IEEE equality)
@@ -599,6 +694,7 @@ pub fn run(cfg: &Cfg, rep: &mut Report) {
     }
     ctx.static_views(cfg);
     ctx.scalar_matrix(cfg);
+    ctx.wide(cfg);
     let cs = contents();
     let wraps: &[&str] = if cfg.thorough() { &["plain", "tuple", "struct", "nested"] } else { &["plain", "tuple"] };
     let mut cell = 0u64;
